@@ -23,6 +23,12 @@ type c13Cell struct {
 	Kind      sim.Kind `json:"kind"`
 	PriorOps  int      `json:"prior_ops"` // operations stored for the existing datatype
 	IDSeed    uint64   `json:"id_seed"`
+	// OwnOps: local operations the actor makes on its new datatype before its entry request (a creator's
+	// are pushed with the request, a subscriber's are discarded by design)
+	OwnOps int `json:"own_ops,omitempty"`
+	// LostResponse: the answer to the actor's entry request is lost; the actor sends its entry request
+	// again (built from its unchanged state) and handles that answer
+	LostResponse bool `json:"lost_response,omitempty"`
 }
 
 func c13Expected(mode, existing string) string {
@@ -147,6 +153,9 @@ func c13Run(cell c13Cell) (nontrivial bool, err error) {
 	if e != nil {
 		return false, e
 	}
+	for i := 0; i < cell.OwnOps; i++ {
+		sim.Exec(cell.Kind, actor.d.dt, c06CheapCall(cell.Kind, 200+i))
+	}
 	var racer *c13Actor
 	if cell.Racer != "none" {
 		if racer, e = mk(cell.Racer); e != nil {
@@ -157,6 +166,12 @@ func c13Run(cell c13Cell) (nontrivial bool, err error) {
 	before := w.env.Mongo.DumpCanonical()
 	// send
 	switch {
+	case racer == nil && cell.LostResponse:
+		w.c13Enter(actor, k) // processed by the server; the answer never reaches the client
+		if actor.ex.timedOut || actor.ex.rpcErr != nil {
+			return false, fmt.Errorf("client %d (%s): the first entry request: timeout=%v err=%v", actor.c.idx, actor.mode, actor.ex.timedOut, actor.ex.rpcErr)
+		}
+		w.c13Enter(actor, k)
 	case racer == nil:
 		w.c13Enter(actor, k)
 	case cell.RaceOrder == "actor-first":
@@ -193,6 +208,19 @@ func c13Run(cell c13Cell) (nontrivial bool, err error) {
 	// expectations
 	exp := map[*c13Actor][]string{}
 	switch {
+	case racer == nil && cell.LostResponse:
+		want := c13Expected(cell.Mode, cell.Existing)
+		if want == "created" {
+			// the first request created the datatype; the client, which does not know, asks again: it has to end
+			// up as a member of the datatype it created (told "created" again or "subscribed"), never refused
+			// (the answer may also carry no entry bit at all: the server knows the client as a member already;
+			// what counts is the client's state afterwards, checked below)
+			want = actor.outcome
+			if want == "refused" {
+				return true, fmt.Errorf("client %d: %s created the datatype, the answer was lost, and the repeated request was refused: %v", actor.c.idx, actor.mode, actor.ex.errPacks)
+			}
+		}
+		exp[actor] = []string{want}
 	case racer == nil:
 		exp[actor] = []string{c13Expected(cell.Mode, cell.Existing)}
 	case cell.RaceOrder == "actor-first" || cell.RaceOrder == "racer-first" || cell.RaceOrder == "concurrent":
@@ -394,12 +422,55 @@ func TestC13Random(t *testing.T) {
 		}
 		if cell.Racer != "none" {
 			cell.RaceOrder = rapid.SampledFrom([]string{"actor-first", "racer-first", "concurrent"}).Draw(rt, "order")
+		} else {
+			cell.LostResponse = rapid.Bool().Draw(rt, "lost_response")
 		}
+		cell.OwnOps = rapid.SampledFrom([]int{0, 0, 1, 3}).Draw(rt, "own_ops")
 		c.j.Header = cell
 		nt, err := c13Run(cell)
 		if err != nil {
 			c.failf("%v", err)
 		}
-		col.Case(nt, fmt.Sprintf("%+v", cell), []string{"mode=" + cell.Mode, "existing=" + cell.Existing, "racer=" + cell.Racer}, func() interface{} { return cell })
+		labels := []string{"mode=" + cell.Mode, "existing=" + cell.Existing, "racer=" + cell.Racer}
+		if cell.LostResponse {
+			labels = append(labels, "entry-request-repeated-after-lost-answer")
+		}
+		if cell.OwnOps > 0 {
+			labels = append(labels, "operations-before-the-entry-request")
+		}
+		col.Case(nt, fmt.Sprintf("%+v", cell), labels, func() interface{} { return cell })
 	})
+}
+
+// TestC13Retry: every entry mode x existing datatype x kind with the answer to the entry request lost
+// and the request repeated, with and without operations made before it.
+func TestC13Retry(t *testing.T) {
+	col := stats.New("C13", t.Name(),
+		"EXHAUSTIVE sub-matrix: entry mode x existing datatype {none, same type, other type} x {0, 2} operations made on the new datatype before the entry request x 4 kinds; the server processes the entry request, its answer is LOST, the client repeats the request and handles that answer; "+
+			"oracle as TestC13Matrix: a refusal stays a refusal (error handler, store unchanged by the repetition), a client whose first request created or subscribed ends up SUBSCRIBED with exactly one state-change event, and if the repeated request is answered as a subscription its first state equals refmodel(log[1..S]) - including its own operations that the first request stored; "+
+			"non-trivial = the first request was accepted; distinct = the cell")
+	defer col.Flush()
+	shard, nshards := envInt("VERIF_SHARD", 0), envInt("VERIF_NSHARDS", 1)
+	i := 0
+	for _, kind := range sim.AllKinds {
+		for _, m := range []string{"create", "subscribe", "subscribe-or-create"} {
+			for _, ex := range []string{"none", "same", "other"} {
+				for _, own := range []int{0, 2} {
+					i++
+					if i%nshards != shard {
+						continue
+					}
+					cell := c13Cell{Mode: m, Existing: ex, Racer: "none", Kind: kind, PriorOps: 3, OwnOps: own, LostResponse: true, IDSeed: uint64(9000 + i)}
+					_, err := c13Run(cell)
+					if err != nil {
+						j := &Journal{Property: "C13", Test: t.Name(), Header: cell}
+						col.Flush()
+						enumFail(t, "C13", j, "cell %+v: %v", cell, err)
+					}
+					col.Case(c13Expected(m, ex) != "refused", fmt.Sprintf("%+v", cell), []string{"mode=" + m, "existing=" + ex, fmt.Sprintf("own-ops=%d", own)}, func() interface{} { return cell })
+				}
+			}
+		}
+	}
+	col.SetExhaustive(true)
 }
